@@ -160,3 +160,17 @@ META["C13"] = M(
          "compared with the reference minimum over x0 + K_m (orthonormal basis + dense least squares), with the initial "
          "residual, with the previous m, and with zero once m reaches the degree known by construction; products with A are "
          "counted; distinct = configuration tuple")
+
+META["C14"] = M(
+    shards={"quick": 16, "thorough": 64}, budget={"quick": 50, "thorough": 800},
+    floors={"quick": {"evals": 3000, "distinct": 300}, "thorough": {"evals": 60000, "distinct": 4000}},
+    required=["orthonormal", "first-column", "T-real-symmetric-tridiagonal-nonneg", "T-is-QH-A-Q", "AQ-QT-vanishes-except-last-column",
+              "spans-krylov-space", "column-count", "stops-when-exhausted", "eigenvalues-of-T-exact-after-exhaustion",
+              "ritz-values-ascending", "ritz-pairs"],
+    rule="Hermitian operators Q diag(l) Q^H (real symmetric / complex Hermitian; simple, indefinite, log-spaced indefinite, "
+         "repeated and tightly clustered spectra; n 1..60 plus 150-300 as a re-orthogonalisation stress), start vectors generic / "
+         "one eigenvector / sum of few eigenvectors / default (keyed) / batched blocks (generic and mixed with eigenvector "
+         "columns), max_iters 1..n+5 and the default, tol 1e-12..1e-3, through lanczos(), Lanczos()(A) and lanczos_eigs(); the "
+         "returned Q, T are judged against the reference matrix: orthonormality (1e-12), first column, T pattern, T = Q^H A Q, "
+         "three-term relation, principal angles to a reference Krylov basis, column cap, early stop at a known Krylov dimension "
+         "with exact eigenvalues, ascending Ritz pairs; distinct = configuration tuple")
